@@ -137,6 +137,15 @@ def run_property(prop, tier, seed, jobs=None, only=None, verbose=False):
             any_reproduced = any_reproduced or reproduced
         else:
             path, reproduced = replay.write_only(prop, o), False
+        mk = _re.search(r"\[k=(\d+)\]", o["name"])
+        if not reproduced and mk and int(mk.group(1)) > (3 if tier == "quick" else 4):
+            # an arity beyond the validated range (families added because the code compares a length
+            # against a larger constant): the ground instantiation of the real-analysis facts is no
+            # longer known to be complete enough there (at k = 5 the unchanged logarithm rule already
+            # has a spurious counter-model), so an unreproduced refutation is undecided, not a violation
+            lines.append(f"UNDECIDED {prop} {o['name']}: refuted only at an arity beyond the validated range and not reproduced on the real code (replay {path})")
+            exit_code = max(exit_code, EXIT_UNDECIDED) if exit_code != EXIT_ENGINE else exit_code
+            continue
         if not reproduced and o.get("weak"):
             # refuted only under an uninterpreted model of a standard-library function, and the
             # real code did not reproduce it: undecided, not a violation
